@@ -170,9 +170,21 @@ def run(ctx):
             if len(sets) == 2 and sets["bfs"] != sets["dfs"]:
                 ctx.oracle_fail("bfs and dfs return different entries with `symlinks`", {"tree": t, "links": ["%s -> %s" % (a, b) for a, b in links]})
             # depth windows with links: model only
+            # `mindepth 1` is no restriction: level 1 is the smallest level there is, also behind a link that leads above the root
+            spelled, cwd = r.choice(spellings)
+            trav1 = r.choice(["", "dfs"])
+            q1 = "select path from %s sym mindepth 1 %s into list" % (spelled, trav1)
+            q0 = "select path from %s sym %s into list" % (spelled, trav1)
+            ctx.case((t, q1))
+            m, impl = corr.run_case(ctx, snap, [q1], fmt="list", ncols=1, cwd=cwd)
+            ref0 = common.run_cli([q0], cwd=cwd, scratch=scratch)
+            if not impl["timed_out"] and sorted(impl["out"].split(b"\0")) != sorted(ref0["out"].split(b"\0")):
+                ctx.oracle_fail("`mindepth 1` with `symlinks` must return what the query without a depth window returns",
+                                {"argv": [q1], "cwd": os.path.relpath(cwd, top), "links": ["%s -> %s" % (a, b) for a, b in links]},
+                                detail={"rows": impl["out"].count(b"\0"), "rows_without_window": ref0["out"].count(b"\0")})
             for _ in range(2):
                 spelled, cwd = r.choice(spellings)
-                q = "select path from %s sym %s %s into list" % (spelled, r.choice(["depth 1", "depth 2", "mindepth 2", "mindepth 2 depth 3"]), r.choice(["", "dfs"]))
+                q = "select path from %s sym %s %s into list" % (spelled, r.choice(["depth 1", "depth 2", "mindepth 1", "mindepth 2", "mindepth 2 depth 3", "mindepth 1 depth 2"]), r.choice(["", "dfs"]))
                 ctx.case((t, q))
                 m, impl = corr.run_case(ctx, snap, [q], fmt="list", ncols=1, cwd=cwd)
                 if impl["timed_out"] or common.panicked(impl):
